@@ -12,6 +12,9 @@ HARNESSES = [
     S('S_drain_try_unlock', 'H_UNLOCK', ['_dispatch_queue_drain_try_unlock'], 'real _dispatch_queue_drain_try_unlock: all owner-held states, all owned amounts, done/not done, <=2 interfering updates'),
     S('S_wakeup_make_dirty', 'H_WAKEUP', ['_dispatch_queue_wakeup'], 'real _dispatch_queue_wakeup(MAKE_DIRTY, TARGET): all 2^64 states, qos 0..6'),
     S('S_invoke_finish', 'H_FINISH', ['_dispatch_queue_invoke_finish'], 'real _dispatch_queue_invoke_finish (re-enqueue path): all owner-held states'),
+    H('S_sync_fast_complete', 'h_state.c', ['_dispatch_lane_barrier_sync_invoke_and_complete', '__dispatch_tsd'], stubs=['_dispatch_bug', '_dispatch_set_basepri_override_qos', 'libdispatch_tsd_init', '_dispatch_client_callout', '_dispatch_lane_barrier_complete',
+        '_dispatch_queue_push_queue', '_dispatch_release_2_tailcall', '_dispatch_retain_2', '_dispatch_queue_wakeup_with_override_slow', '_dispatch_lane_wakeup', '_dispatch_lane_drain_barrier_waiter', '_dispatch_workloop_drain_barrier_waiter'],
+      nt=1, heap=1024, defines=['-DH_SYNCDONE'], unwind=5, probes=PR, timeout=300, note='real _dispatch_lane_barrier_sync_invoke_and_complete: the uncontended sync unlock is refused when a waiter set DIRTY meanwhile; all owner-held states, <=2 interferences'),
     S('S_barrier_complete', 'H_BCOMPLETE', ['_dispatch_lane_class_barrier_complete'], 'real _dispatch_lane_class_barrier_complete, target NONE/TARGET: all barrier-held states'),
 ]
 ASSUMPTIONS = ['tier S: one call of one real state-machine function from an arbitrary 64-bit state word (restricted only by the caller contract: what the calling owner holds) and arbitrary width in [1,4094]; at most 2 interfering replacements of the word by other threads',
